@@ -88,6 +88,11 @@ func runExplorer(run *report.Run, check string, e *explore.Explorer) {
 		"depth": e.Depth, "closed": e.Exhaustive, "all_histories_up_to_depth_bound": e.BoundDone, "blocked": e.Blocked, "alphabet": len(e.Ops),
 		"findings": len(e.Findings), "wall_s": time.Since(t0).Seconds(), "dedup": world.HookAvailable,
 	})
+	if len(run.Samples) < 6 && len(e.SampleHists) > 0 {
+		h := e.SampleHists[len(e.SampleHists)-1]
+		run.AddSample(map[string]interface{}{"config": e.Cfg.Name, "one_of_the_deepest_states_reached_by": e.Cfg.DescribeHist(h),
+			"explored_from_it": fmt.Sprintf("all %d operations of the alphabet", len(e.Ops))})
+	}
 	sigs := make([]string, 0, len(e.Findings))
 	for s := range e.Findings {
 		sigs = append(sigs, s)
